@@ -26,7 +26,7 @@ impl Check for C07 {
     fn run_case(&self, cx: &mut Ctx, _case: u64, rng: &mut Rng) {
         let enc = enc_for(rng);
         let n = rng.range(2, 4);
-        let mut w = World::new(rng, n, enc, Profile::contention());
+        let mut w = World::new(rng, n, enc, Profile { text_elem_ops: rng.clone().chance(40), ..Profile::contention() });
         w.verbose = cx.verbose;
         let steps = rng.range(15, cx.tier.pick(120, 400));
         w.run(rng, steps);
